@@ -573,32 +573,44 @@ def _scope_lets(scope):
 
 def _change_literals(node, binds=None, prog=None):
     """Change / InlineChange struct literals below node, in source order, as records (tag, old_index is Some, new_index
-    is Some, ...).  Private helpers called below `node` are looked into, each specialised for the tag / bool constants
-    that call passes (`self.advance_old(ChangeTag::Delete, false)`)."""
+    is Some, ...).  Private helpers called below `node` are looked into at the place of the call, each specialised for
+    the tag / bool constants that call passes (`self.advance_old(ChangeTag::Delete, false)`)."""
     out = []
-    scopes = [node]
-    if prog is not None:
-        seen_fns = set()
-        for call in find_nodes(node, lambda n: n["k"] in ("mcall", "call")):
-            g, args = _call_target(prog, call)
+    is_lit = lambda n: n["k"] == "struct" and n.get("adt") in ("types::Change", "text::inline::InlineChange")
+    own_lets = _scope_lets(node)
+    seen_lits = set()
+    seen_fns = set()
+
+    def add_scope(scope):
+        lets = _scope_lets(scope)
+        for lit in find_nodes(scope, is_lit):
+            out.append(_lit_record(lit, scope, lets))
+
+    for n in find_nodes(node, lambda n: is_lit(n) or n["k"] in ("mcall", "call") or
+                        (n["k"] == "path" and (n.get("res") or {}).get("dk") in ("Fn", "AssocFn"))):
+        if is_lit(n):
+            if n["id"] not in seen_lits:
+                seen_lits.add(n["id"])
+                out.append(_lit_record(n, node, own_lets))
+            continue
+        if prog is None:
+            continue
+        if n["k"] in ("mcall", "call"):
+            g, args = _call_target(prog, n)
             if g is not None and g.hir and g.hir.get("body") and not g.public and g.kind != "Closure":
                 consts = _call_consts(g, args)
-                seen_fns.add(g.path)
-                scopes.append(_specialise(g.hir["body"], {}, {}, consts) if consts else g.hir["body"])
-        # private functions handed to a combinator as values: `self.advance_old().map(deletion)`
-        for ref in find_nodes(node, lambda n: n["k"] == "path" and (n.get("res") or {}).get("dk") in ("Fn", "AssocFn")):
-            g = prog.fn(ref["res"].get("path", ""))
-            if g is not None and g.hir and g.hir.get("body") and not g.public and g.kind != "Closure" and g.path not in seen_fns:
-                seen_fns.add(g.path)
-                scopes.append(g.hir["body"])
-    for scope in scopes:
-        lets = _scope_lets(scope)
-        seen_ids = set()
-        for lit in find_nodes(scope, lambda n: n["k"] == "struct" and n.get("adt") in ("types::Change", "text::inline::InlineChange")):
-            if lit["id"] in seen_ids:
-                continue
-            seen_ids.add(lit["id"])
-            out.append(_lit_record(lit, scope, lets))
+                key = (g.path, tuple(sorted((k, origin(v)) for k, v in consts.items())))
+                if key in seen_fns:
+                    continue
+                seen_fns.add(key)
+                seen_fns.add((g.path, ()))
+                add_scope(_specialise(g.hir["body"], {}, {}, consts) if consts else g.hir["body"])
+        else:
+            # a private function handed to a combinator as a value: `self.advance_old().map(deletion)`
+            g = prog.fn(n["res"].get("path", ""))
+            if g is not None and g.hir and g.hir.get("body") and not g.public and g.kind != "Closure" and (g.path, ()) not in seen_fns:
+                seen_fns.add((g.path, ()))
+                add_scope(g.hir["body"])
     return out
 
 
@@ -851,6 +863,19 @@ def rule_F3(prog):
                             x["res"]["id"] in fn_lets and hops < 5:
                         x = unwrap(fn_lets[x["res"]["id"]])      # `let deleted = self.old.slice(..); (Delete, deleted)`
                         hops += 1
+                    if isinstance(x, dict) and x.get("k") == "call":
+                        # a local closure: `let old_slice = |index, len| self.old.slice(index..index + len);`
+                        fx = unwrap(x["f"])
+                        if isinstance(fx, dict) and fx.get("k") == "path" and fx.get("res", {}).get("k") == "local" and \
+                                fx["res"]["id"] in fn_lets:
+                            clo = unwrap(fn_lets[fx["res"]["id"]])
+                            if isinstance(clo, dict) and clo.get("k") == "closure" and len(clo.get("params", [])) == len(x["args"]):
+                                sub = {}
+                                for pp, arg in zip(clo["params"], x["args"]):
+                                    pp_ = pp.get("pat", pp) if isinstance(pp, dict) else pp
+                                    if isinstance(pp_, dict) and pp_.get("k") == "bind":
+                                        sub[pp_["id"]] = arg
+                                x = unwrap(_specialise(clo["body"], {}, {}, sub))
                     side = None
                     rng = None
                     if isinstance(x, dict) and x.get("k") == "index":
@@ -1481,6 +1506,19 @@ def rule_F9(prog):
         for v, a in arms.items():
             calls = find_nodes(a["body"], lambda n: n["k"] == "call" and origin(n["f"]).endswith("push_values"))
             flags = [origin(c["args"][2]) for c in calls if len(c["args"]) > 2]
+            if not calls:
+                # through a private helper that hands one of its own parameters to push_values as the flag
+                for c in find_nodes(a["body"], lambda n: n["k"] in ("call", "mcall")):
+                    g, args = _call_target(prog, c)
+                    if g is None or not g.hir or not g.hir.get("body") or g.public:
+                        continue
+                    inner = find_nodes(g.hir["body"], lambda n: n["k"] == "call" and origin(n["f"]).endswith("push_values") and len(n["args"]) > 2)
+                    pn = [pp["pat"].get("name") for pp in g.hir["params"]]
+                    for i_ in inner:
+                        o = origin(i_["args"][2])
+                        if o in pn and pn.index(o) < len(args):
+                            flags.append(origin(args[pn.index(o)]))
+                            calls.append(c)
             if not calls:
                 # the arm only selects what to push (`=> (true, Some(run), None)`); the flag is the bool of that tuple
                 body = unwrap(a["body"])
